@@ -31,12 +31,18 @@ def prepTi (ti : Terminfo) (tc : Bool) : Terminfo :=
 
 def utf8Payload (m : Rune) (comb : List Rune) : List Nat := Utf8.encode m ++ comb.flatMap Utf8.encode
 
-def mkCfgs (env : Env) (ti : Terminfo) (tc : Bool) (fit fit0 : List (Nat × Nat)) : DrawCfg × RenderCfg :=
+/-- `<entry>+lg` on a case line = the tree under test has the locked-neighbour repair (probed by the harness, see
+    `lockGuardSuffix` in harness/engines/draw.go); without the suffix the pinned drawCell / LockRegion are modelled -/
+def splitVariant (name : String) : String × Bool :=
+  if name.endsWith "+lg" then (name.dropRight 3, true) else (name, false)
+
+def mkCfgs (env : Env) (ti : Terminfo) (tc : Bool) (fit fit0 : List (Nat × Nat)) (lg : Bool := false) : DrawCfg × RenderCfg :=
   let d := derive ti
   let dc : DrawCfg := { rw := env.rw, payload := utf8Payload, hasHide := !ti.hideCursor.isEmpty,
                         hasCursorStyle := fun cs => match d.cursorStyles with | some l => cs < l.length | none => false,
                         hasCursorRGB := !d.cursorRGB.isEmpty,
-                        cornerTrick := ti.autoMargin && ti.disableAutoMargin.isEmpty && !ti.insertChar.isEmpty }
+                        cornerTrick := ti.autoMargin && ti.disableAutoMargin.isEmpty && !ti.insertChar.isEmpty,
+                        guardLocked := lg }
   let rc : RenderCfg := { ti := ti, d := d,
                           truecolor := tc && !(ti.setFgBgRGB.isEmpty && ti.setFgRGB.isEmpty && ti.setBgRGB.isEmpty),
                           fit := lookupFit fit, fit0 := lookupFit fit0 }
@@ -62,14 +68,15 @@ def run (env : Env) (rest : String) : String :=
   | name :: tc :: w :: h :: _ =>
     let opsStr := (rest.drop (name.length + tc.length + w.length + h.length + 4)).toString
     let ops := splitTrim opsStr ";"
-    match env.lookup name with
+    let (base, lg) := splitVariant name
+    match env.lookup base with
     | none => "no-entry"
     | some ti0 =>
       let tcb := tc = "1"
       let ti := prepTi ti0 tcb
       let fit := (ops.filterMap fun o => match words o with | ["FIT", t] => some (parsePairs t) | _ => none).flatten
       let fit0 := (ops.filterMap fun o => match words o with | ["FIT0", t] => some (parsePairs t) | _ => none).flatten
-      let (dc, rc) := mkCfgs env ti tcb fit fit0
+      let (dc, rc) := mkCfgs env ti tcb fit fit0 lg
       let initB := Engage.engageBytes rc {} true
       let out0 : Array String := if initB.isEmpty then #[] else #["i:" ++ hex initB]
       let (wd, out, _) := ops.foldl (fun (acc : ScrW × Array String × Nat) op =>
